@@ -28,7 +28,7 @@ def model_tokens(line):
 def projections(toks):
     """what is compared with the model: between two dials the supervisor's reports race with the
     script's own actions, so attempts/actions, reports and requests are compared as three sequences"""
-    att = [t for t in toks if re.match(r"^(d\d+|hs|fail|norm|stop|a\d+)$", t)]
+    att = [t for t in toks if re.match(r"^(d\d+|hs|fail|norm|stop|a\d+)$", t)]   # (F / G markers are not compared)
     rep = [t for t in toks if re.match(r"^r", t)]
     snd = [t for t in toks if re.match(r"^s\d", t)]
     odd = [t for t in toks if t.startswith("!")]
@@ -42,7 +42,9 @@ def clauses(up0, toks):
     cur = "U" if up0 else "D"
     fails_hs = 0       # failed attempts since the reader last accepted a connection
     fails_norm = 0     # consecutive failed attempts (no attempt in between ended normally)
-    sdk_failed = False
+    sdk_on = True       # the SDK call works (script tokens F / G are logged by the harness)
+    sdk_failed = False  # a call failed and the SDK has not been switched back on since
+    fails_g = 0         # failed attempts since the SDK works again
     stopped = False
     addr = 0
     pending_up = None  # index of an hs seen while Down, waiting for the Up report
@@ -63,8 +65,8 @@ def clauses(up0, toks):
                 bad.append(("dial-after-stop", "attempt d%s after Stop" % m.group(1)))
             if int(m.group(1)) != addr:
                 bad.append(("addr-not-followed", "attempt dials address %s, last address set is %d" % (m.group(1), addr)))
-            if fails_hs >= 2 and cur != "D" and not sdk_failed:
-                bad.append(("down-missing", "%d attempts failed since the reader last accepted, next attempt starts and Down was not reported" % fails_hs))
+            if min(fails_hs, fails_g) >= 2 and cur != "D" and sdk_on and not sdk_failed:
+                bad.append(("down-missing", "%d attempts failed since the reader last accepted (%d since the SDK call works), next attempt starts and EdgeX does not hold Down" % (fails_hs, fails_g)))
             dials_since_hs += 1
             if pending_up is not None and dials_since_hs >= 2:
                 bad.append(("up-missing", "reader accepted a connection while Down and Up was not reported"))
@@ -72,10 +74,17 @@ def clauses(up0, toks):
         elif t == "hs":
             fails_hs = 0
             dials_since_hs = 0
-            pending_up = i if (cur == "D" and not sdk_failed) else None
+            pending_up = i if (cur == "D" and sdk_on and not sdk_failed) else None
+        elif t == "F":
+            sdk_on = False
+        elif t == "G":
+            # from here on a failed report must be repeated: two further failed attempts contain
+            # the end of a round, where the Down block runs again
+            sdk_on, sdk_failed, fails_g = True, False, 0
         elif t == "fail":
             fails_hs += 1
             fails_norm += 1
+            fails_g += 1
             if pending_up is not None:
                 bad.append(("up-missing", "reader accepted a connection while Down and Up was not reported before it broke"))
                 pending_up = None
@@ -110,8 +119,8 @@ def clauses(up0, toks):
             if pending_up is not None:
                 bad.append(("up-missing", "reader accepted a connection while Down and Up was not reported"))
                 pending_up = None
-    if fails_hs >= 2 and cur != "D" and not sdk_failed:
-        bad.append(("down-missing", "%d attempts failed since the reader last accepted and Down was not reported" % fails_hs))
+    if min(fails_hs, fails_g) >= 2 and cur != "D" and sdk_on and not sdk_failed:
+        bad.append(("down-missing", "%d attempts failed since the reader last accepted (%d since the SDK call works) and EdgeX does not hold Down" % (fails_hs, fails_g)))
     if pending_up is not None:
         bad.append(("up-missing", "reader accepted a connection while Down and Up was never reported"))
     return bad
@@ -120,7 +129,7 @@ def clauses(up0, toks):
 def nontrivial(script):
     toks = script.split()[1:]
     nd = sum(1 for t in toks if t[0] == "D")
-    return nd >= 2 and any(t in ("DR", "DS", "DZ", "DB", "DH", "X") or t[0] in "UuQq" for t in toks)
+    return nd >= 2 and any(t in ("DR", "DS", "DZ", "DP", "DB", "DH", "X") or t[0] in "UuQq" for t in toks)
 
 
 def run(tier, seed, replay=None):
@@ -132,6 +141,10 @@ def run(tier, seed, replay=None):
         "Go: net.Dialer resolves a host name once per dial through net.DefaultResolver (used to observe every attempt incl. refused ones); retry.Quick/Slow replaced by constant 100ms/200ms waits without jitter during the harness run; durations are never compared",
         "EdgeX SDK: UpdateDeviceOperatingState is the only call observed; 'reported' means the call returned nil",
         "histories started by Driver.Start (recorded operating state from svc.Devices()) use a literal TCP address, so refused attempts are not observed there: only the announcements and isUp are compared, 'unreachable' lasts until the device holds itself Down plus two rounds of the shortened policies",
+        "registry (Driver/Registry.v): one event per critical section of devicesMu / per call outside it; entries of different names are independent; "
+        "the harness does not control the schedule of the overlapping callers (spin barrier, a log sink that takes 2 ms, a held read lock on odd rounds): "
+        "the theorems quantify over all schedules, the run compares the invariant (supervisors per name, after removal) with four model schedules",
+        "race class: connections are counted by the scripted listener (one device name = one literal address); 'after RemoveDevice' is watched for two slow waits and a quick one of the shortened policies",
         "Stop right after NewLLRPDevice may be noticed before or after the retry loops are entered (events StopAtEntry / Stop); the observed history must equal one of the two model runs",
         "accepted-then-silent is scripted as accept, 15ms, close without data; a reader silent for the full 60 s read timeout is run twice, in the thorough tier only",
     ]
@@ -160,7 +173,11 @@ def run(tier, seed, replay=None):
         if thorough:
             # a reader that accepts and then says nothing at all: the device must give up by itself
             # (60 s read timeout) and go on dialling; runs alongside the other scripts
-            scripts = ["1 DZ DE T", "0 DR DZ T"] + scripts
+            scripts = ["1 DZ DE T", "0 DR DZ T", "1 DP DE T", "0 DP DR T"] + scripts
+        else:
+            # one instance also in the quick tier (the 60 s are the client's keepAliveInterval *
+            # maxMissedKAs, constants; it runs alongside everything else and sets the tier's wall time)
+            scripts = ["1 DZ DR T"] + scripts
         seen, uniq = set(), []
         for s in scripts:
             if s not in seen:
@@ -170,6 +187,12 @@ def run(tier, seed, replay=None):
         # histories that START through Driver.Start with the operating state recorded in EdgeX
         # (0 = DOWN, 1 = UP), the reader then accepting (e) / being unreachable for >= 2 attempts (r)
         scripts = ["start %d %s" % (u, ph) for u in (0, 1) for ph in ("e", "r", "er", "re", "ere", "rer")] + scripts
+        # N callers released together ask for the same not yet managed device, then it is removed:
+        # one supervisor per name, nothing dials after the removal
+        scripts = (["race 8 40", "race 3 40", "race 16 20", "race 2 40"] if thorough else ["race 16 6", "race 3 4", "race 2 6"]) + scripts
+        # a device removed and added again under the same name (re-provisioning): the second registration stays managed and connected,
+        # whenever the first instance's goroutine winds down (log sink delays 0 / 2 ms shift that moment)
+        scripts = (["readd 20 0", "readd 20 2", "readd 10 5"] if thorough else ["readd 5 0", "readd 4 2"]) + scripts
         # Stop right after NewLLRPDevice (about to dial): either of the model's two Stop events
         scripts = ["1 Y", "0 Y", "1 y Q", "1 Y U1 Q", "0 y U1"] + scripts
 
@@ -227,7 +250,7 @@ def run(tier, seed, replay=None):
         missing = [i for i in range(len(reqs)) if answers[i] is None]
         rc = 0 if not missing else 1
         lines = [a if a is not None else "!noanswer" for a in answers]
-        orc, oout = vlib.run_oracle("c15", "consts\n" + "".join((s if s.startswith("start ") else "run " + s) + "\n" for s in batch))
+        orc, oout = vlib.run_oracle("c15", "consts\n" + "".join((s if s.startswith(("start ", "race ", "readd ")) else "run " + s) + "\n" for s in batch))
         return rc, lines, glog_all, [l for l in oout.split("\n")]
 
     rc, lines, glog, olines = execute(scripts)
@@ -255,6 +278,31 @@ def run(tier, seed, replay=None):
     alt_model = {}
 
     def differs(g, o, s=""):
+        if s.startswith("race "):
+            # registry model (Driver/Registry.v, repaired flags) over four schedules of the n callers: its largest number of
+            # supervisors and what is left after RemoveDevice; the commands of the run must all have been answered
+            gm = re.match(r"maxconc=(\d+) late=(\d+) open=(\d+) cmds=(\d+)/(\d+)$", g)
+            mm = re.match(r"maxlive=(\d+) late=(\d+) open=(\d+)$", o)
+            if not gm or not mm:
+                return ["irregular: %s / %s" % (g[:80], o[:80])]
+            d = []
+            if gm.group(1, 2, 3) != mm.group(1, 2, 3):
+                d.append("connections of one name: Go (at a time, after removal, left open) %s, registry model %s" % (gm.group(1, 2, 3), mm.group(1, 2, 3)))
+            if gm.group(4) != gm.group(5):
+                d.append("commands answered %s of %s" % (gm.group(4), gm.group(5)))
+            return d
+        if s.startswith("readd "):
+            gm = re.match(r"managed=(\d+)/(\d+) connected=(\d+)/(\d+) maxconc=(\d+)$", g)
+            mm = re.match(r"managed=([01]) live=(\d+)$", o)
+            if not gm or not mm:
+                return ["irregular: %s / %s" % (g[:80], o[:80])]
+            reps = int(gm.group(2))
+            d = []
+            if int(gm.group(1)) != reps * int(mm.group(1)):
+                d.append("managed after remove + add: Go %s of %s, registry model %s" % (gm.group(1), reps, mm.group(1)))
+            if int(gm.group(3)) != reps * int(mm.group(2)) or int(gm.group(5)) > 1:
+                d.append("connected after remove + add: Go %s of %s (at most %s at a time), registry model %s supervisor" % (gm.group(3), reps, gm.group(5), mm.group(2)))
+            return d
         if s.startswith("start "):
             gt, gup = parse(g)
             mt, mup = parse(o)
@@ -293,6 +341,21 @@ def run(tier, seed, replay=None):
 
     def prop(s, g):
         """the property clauses on an observed history"""
+        if s.startswith("race "):
+            m = re.match(r"maxconc=(\d+) late=(\d+) open=(\d+)", g)
+            if m and (int(m.group(1)) > 1 or int(m.group(2)) > 0 or int(m.group(3)) > 0):
+                return [("orphan-supervisor", "%s callers asked together for the same unmanaged device name (%s rounds): up to %s connections of that one device at a time, "
+                         "%s new connection(s) and %s still open after RemoveDevice returned" % (s.split()[1], s.split()[2], m.group(1), m.group(2), m.group(3)))]
+            return []
+        if s.startswith("readd "):
+            m = re.match(r"managed=(\d+)/(\d+) connected=(\d+)/(\d+) maxconc=(\d+)", g)
+            if m and (m.group(1) != m.group(2) or m.group(3) != m.group(4)):
+                return [("managed-device-stopped-by-stale-cleanup", "a device was added, connected, removed and added again under the same name %s times (log sink delay %s ms): "
+                         "afterwards the driver still managed it %s times and the reader held its connection %s times — the device was managed and nobody stopped it" %
+                         (m.group(2), s.split()[2], m.group(1), m.group(3)))]
+            if m and int(m.group(5)) > 1:
+                return [("orphan-supervisor", "remove + add of one name: up to %s connections at a time" % m.group(5))]
+            return []
         if s.startswith("start "):
             exp, up = start_expected(s)
             gt, gup = parse(g)
@@ -317,7 +380,10 @@ def run(tier, seed, replay=None):
     suspects = []
     for s, g, o in zip(scripts, lines[1:], olines[1:]):
         evals += 1
-        if s.startswith("start "):
+        if s.startswith(("race ", "readd ")):
+            dist[s.split()[0]] = dist.get(s.split()[0], 0) + 1
+            nontriv.add(s)
+        elif s.startswith("start "):
             dist["start"] = dist.get("start", 0) + 1
             if len(s.split()[2]) >= 2:
                 nontriv.add(s)
